@@ -494,7 +494,8 @@ def task_ion_backbone(pr, repo):
             pr.explore(ex, t_bb, 'set_backbone_determinants %s %s' % (btype, elem))
 
 
-def task_iterative(pr, repo):
+def task_iterative(pr, repo, presence_only=False):
+    """presence_only: only WHICH terms exist (used by properties that do not speak about signs and sizes)."""
     ex = Executor(repo)
     for n in ('add_iterative_acid_pair', 'add_iterative_base_pair', 'add_iterative_ion_pair'):
         pr.under_contract(repo.func(IT + n))
@@ -519,7 +520,8 @@ def task_iterative(pr, repo):
         ok = len(c) == 1 and len(s1) == 1 and len(s2) == 1
         ctx.oblige('iterative acid pair: one Coulomb term +coulomb (destabilising), side-chain terms +-hbond, |.| within the inputs',
                    And(ok, c[0][1] == cv, s1[0][1] == -1 * s2[0][1], Or(s1[0][1] == hb, s1[0][1] == -1 * hb)))
-    pr.explore(ex, t_acid, 'add_iterative_acid_pair')
+    if not presence_only:
+        pr.explore(ex, t_acid, 'add_iterative_acid_pair')
 
     def t_base(ex, ctx):
         o1, o2, hb, cv, inter = setup(ctx)
@@ -529,7 +531,8 @@ def task_iterative(pr, repo):
         ok = len(c) == 1 and len(s1) == 1 and len(s2) == 1
         ctx.oblige('iterative base pair: one Coulomb term -coulomb (like charges lower a base), side-chain terms +-hbond',
                    And(ok, c[0][1] == -1 * cv, s1[0][1] == -1 * s2[0][1], Or(s1[0][1] == hb, s1[0][1] == -1 * hb)))
-    pr.explore(ex, t_base, 'add_iterative_base_pair')
+    if not presence_only:
+        pr.explore(ex, t_base, 'add_iterative_base_pair')
 
     import ast as _ast
     MINV = _ast.literal_eval(repo.module('propka.iterative').assigns['UNK_MIN_VALUE'])
@@ -551,11 +554,12 @@ def task_iterative(pr, repo):
             c1, c2 = o1.attrs['determinants']['coulomb'], o2.attrs['determinants']['coulomb']
             s1, s2 = o1.attrs['determinants']['sidechain'], o2.attrs['determinants']['sidechain']
             conj = [len(c1) == len(c2), len(c1) <= 1, len(s1) <= 1, len(s2) <= 1]
-            if len(c1) == 1 and len(c2) == 1:
+            if len(c1) == 1 and len(c2) == 1 and not presence_only:
                 conj.append(And(c1[0][1] == q1 * cv, c2[0][1] == q2 * cv, c1[0][1] == -1 * c2[0][1]))
             for s_, q in ((s1, q1), (s2, q2)):
                 for x in s_:
-                    conj.append(x[1] == q * hb)
+                    if not presence_only:
+                        conj.append(x[1] == q * hb)
             # which terms exist: Coulomb and hydrogen-bond terms are decided independently of each other; the exclusion list only
             # concerns the side-chain term of the excluded residue
             big_c, big_h = cv > Sym(real_val(MINV)), hb > Sym(real_val(MINV))
